@@ -7,7 +7,7 @@ Scope notes (validated by the differential check in `harness/props/c16.py`):
 * `isSpacePy` is the complete `str.isspace` set of CPython 3.12 (25 code points).
 * `isIdStart`/`isIdContinue` are exact for code points < 0x100; larger code points are
   treated as non-identifier characters (the generators stay below 0x100 for names).
-* `pyIntOfStr` is `int(s)` for base 10: surrounding whitespace, optional sign, ASCII digits
+* `pyIntOfStr` is `int(s)` for base 10: surrounding whitespace (as `int()` defines it), optional sign, ASCII digits
   with single underscores between digits. -/
 namespace Scsv
 
@@ -91,9 +91,15 @@ def parseDigits : Str → Option Nat
   | [] => none
   | c :: cs => if isAsciiDigit c then parseDigitsAux cs (digitVal c) true else none
 
+/-- the whitespace `int()` skips around the number: `str.isspace` without U+001C..U+001F
+(ASCII characters are handed to `PyLong_FromString` unchanged, which skips C `isspace` only) -/
+def isSpaceInt (c : Char) : Bool := isSpacePy c && !(0x1C ≤ c.toNat && c.toNat ≤ 0x1F)
+
+def stripInt (s : Str) : Str := ((s.dropWhile isSpaceInt).reverse.dropWhile isSpaceInt).reverse
+
 /-- `int(s)` (base 10); `none` is `ValueError` -/
 def pyIntOfStr (s : Str) : Option Int :=
-  match strip s with
+  match stripInt s with
   | '-' :: ds => (parseDigits ds).map (fun n => - (n : Int))
   | '+' :: ds => (parseDigits ds).map (fun n => (n : Int))
   | ds => (parseDigits ds).map (fun n => (n : Int))
